@@ -56,7 +56,9 @@ func (c *Ctx) runFuncBatch(name string, items []pgen.FItem, race bool, n int, bu
 	fail := func(stage, stderr string) []*FOutcome {
 		if len(items) > 1 && atomicAdd(&c.isolations, 1) <= 60 {
 			subs := make([][]*FOutcome, len(items))
-			parallel(len(items), 4, func(i int) { subs[i] = c.runFuncBatch(fmt.Sprintf("%s-s%d", name, i), items[i:i+1], race, n, buildOnly) })
+			parallel(len(items), 4, func(i int) {
+				subs[i] = c.runFuncBatch(fmt.Sprintf("%s-s%d", name, i), items[i:i+1], race, n, buildOnly)
+			})
 			var out []*FOutcome
 			anyFail := false
 			for _, s := range subs {
